@@ -339,3 +339,19 @@ def run_schedule(spec, schedule, names=None):
         elif op[0] == 'setpwm':
             m.elements[0].pwm = op[1]
     return m, info
+
+
+def determinism_selfcheck():
+    """Replay one recorded history twice on fresh objects and require bit-identical observations
+    (guards the explorer against nondeterminism it does not own: time, hashing, caches)."""
+    from gmc import menu
+    spec = menu.assign([('J', 'Wg'), ('W', 'Ww'), ('J', 'S'), ('G', 'S')], motor=menu.MOTOR_CUR, locking=True,
+                       init={'theta': [0.1, 'rad'], 'w': [1.0, 'rad/s']})
+    spec['load'] = ['mix', 0.002, 0.0001, 0.0002, 0.05]
+    ops = [('run', [0.125, 'sec'], [0.5, 'sec'], [1, 0.3, 0, -1, 1, None, 0.5], None),
+           ('run', [0.125, 'sec'], [0.375, 'sec'], [1, 0.3, 0, -1, 1, None, 0.5, 1, -0.2], None)]
+    a = run_schedule(spec, ops)[0].observe()
+    b = run_schedule(spec, ops)[0].observe()
+    if repr(a) != repr(b):
+        raise SystemExit('determinism self-check failed: the same history gave two different observations')
+    return len(a['time'])
